@@ -28,7 +28,9 @@ theorem serverRole_bumps (H : Hs) (tok : Nat) (tt : Option Nat) : (serverRole H 
     | error e => rfl
     | ok ver =>
       simp only
-      split <;> rfl
+      split
+      · rfl
+      · split <;> rfl
   · intro n c t b
     simp only [serverRole, serverChallenge]
     cases H.parseChallenge b with
